@@ -3,13 +3,10 @@
    leaves exactly the documented state (result, C, Z from A and the byte in the cell the prefix's mode names). *)
 From Coq Require Import ZArith NArith List Bool Lia.
 From BE Require Import Model.TableTypes Gen.Tables Model.Regs Model.Decode Model.IL Model.Lift Model.Static Model.Spec
-  Model.Emu Proofs.AluProofs Proofs.ExecProofs Proofs.AccessProofs Proofs.ExecMemProofs.
+  Model.Emu Proofs.AluProofs Proofs.ExecProofs Proofs.AccessProofs Proofs.ExecMemProofs Proofs.ExecAluDefs.
 Import ListNotations.
 Open Scope Z_scope.
 
-Definition flags_of (oc oz : option Z) (s : mstate) : mstate :=
-  let s2 := match oc with Some c => set_flag s true c | None => s end in
-  match oz with Some z => set_flag s2 false z | None => s2 end.
 
 Lemma alu_A_final_gen s' s x y r oc oz :
   rg s' = rg (setr (setr s gPC x) gPC y) -> (forall a, mem s' a = mem s a) -> halted s' = halted s ->
@@ -71,13 +68,6 @@ Ltac alu_mem_setup cls :=
     end
   end.
 
-(* value-level facts: the logic nodes return the bit-wise result unmasked, report C = 0 (ignored by the {Z} flag spec) *)
-Lemma il_and_documented a b : eval_binop B_AND 1 a b = Some (r_val (alu_logic Z.land a b), Some 0, r_z (alu_logic Z.land a b)).
-Proof. reflexivity. Qed.
-Lemma il_or_documented a b : eval_binop B_OR 1 a b = Some (r_val (alu_logic Z.lor a b), Some 0, r_z (alu_logic Z.lor a b)).
-Proof. reflexivity. Qed.
-Lemma il_xor_documented a b : eval_binop B_XOR 1 a b = Some (r_val (alu_logic Z.lxor a b), Some 0, r_z (alu_logic Z.lxor a b)).
-Proof. reflexivity. Qed.
 
 Ltac alu_mem_finish s s' b Ro :=
   cbn [place_of];
